@@ -155,6 +155,16 @@ func newCSS(input utils.ContentInput, baseUrl string,
 	mediaType string, fontConfig text.FontConfiguration, matcher *matcher,
 	pageRules *[]PageRule, counterStyle counters.CounterStyle,
 ) (CSS, error) {
+	return newCSSImports(input, baseUrl, urlFetcher, checkMimeType, mediaType, fontConfig, matcher,
+		pageRules, counterStyle, nil)
+}
+
+// same as newCSS; [importing] is the set of the urls of the style sheets being imported
+func newCSSImports(input utils.ContentInput, baseUrl string,
+	urlFetcher utils.UrlFetcher, checkMimeType bool,
+	mediaType string, fontConfig text.FontConfiguration, matcher *matcher,
+	pageRules *[]PageRule, counterStyle counters.CounterStyle, importing utils.Set,
+) (CSS, error) {
 	logger.ProgressLogger.Printf("Step 2 - Fetching and parsing CSS - %s", input)
 
 	if urlFetcher == nil {
@@ -182,8 +192,8 @@ func newCSS(input utils.ContentInput, baseUrl string,
 	}
 
 	out := CSS{baseUrl: ressource.BaseUrl}
-	preprocessStylesheet(mediaType, ressource.BaseUrl, stylesheet, urlFetcher, matcher,
-		pageRules, fontConfig, counterStyle, false)
+	preprocessStylesheetImports(mediaType, ressource.BaseUrl, stylesheet, urlFetcher, matcher,
+		pageRules, fontConfig, counterStyle, false, importing)
 	out.matcher = *matcher
 	out.pageRules = *pageRules
 	return out, nil
